@@ -295,7 +295,8 @@ func parseAtom(lex *lexer.PeekingLexer) (Expression, error) {
 			NodeMeta: nodeMetaFromPosition(tok.Pos),
 		}
 		if err := i.Value.UnmarshalText([]byte(tok.Value)); err != nil {
-			return nil, err
+			// e.g. "09": the lexer accepts it, but it is neither decimal nor octal
+			return nil, &participle.ParseError{Pos: tok.Pos, Msg: fmt.Sprintf("invalid integer literal '%s'", tok.Value)}
 		}
 		return &i, nil
 	case TokenTypeFloat:
